@@ -318,6 +318,28 @@ Definition quiescent_ok (sn : snap) (cur : N) (onlive : list (N * request)) : bo
                     | None => true
                     end) all_types.
 
+(** interest sets of every type as a snapshot shows them *)
+Definition snap_sets (sn : snap) : list (rtype * list string) :=
+  flat_map (fun t => match snap_watched sn t with Some ws => [(t, ws)] | None => [(t, [])] end) all_types.
+(** every request lists an interest set its type had at some moment of the region it was queued in *)
+Definition listed_existed (seen : list (rtype * list string)) (reqs : list (N * request)) : bool :=
+  forallb (fun sq => existsb (fun tw => rtype_eqb (fst tw) (q_type (snd sq)) && names_eqb (q_names (snd sq)) (snd tw)) seen) reqs.
+
+Fixpoint c03_ok_seen (seen : list (rtype * list string)) (prev : snap) (pend : bool) (tr : list (op * step_obs)) : bool :=
+  match tr with
+  | [] => true
+  | (x, ob) :: r =>
+      let sn := so_snap ob in
+      if so_deferred ob then c03_ok_seen ((if pend then seen else snap_sets prev) ++ snap_sets sn)%list sn true r
+      else if pend then
+        (* the region ends: what was queued in it is now on the wire *)
+        (match x with
+         | OLookups _ _ | ORecvErr _ | OSendErr => true      (* bursts are listed in abridged form; a stream failure re-subscribes *)
+         | _ => listed_existed (seen ++ snap_sets sn)%list (so_reqs ob)
+         end) && c03_ok_seen [] sn false r
+      else c03_ok_seen [] sn false r
+  end.
+
 Fixpoint c03_ok (prev : snap) (cur : N) (onlive : list (N * request)) (live pend : bool) (tr : list (op * step_obs)) : bool :=
   match tr with
   | [] => true
@@ -383,7 +405,8 @@ Fixpoint c03_ok (prev : snap) (cur : N) (onlive : list (N * request)) (live pend
   end.
 Definition spec_c03 (k : sys_case) : bool :=
   negb (sk_fatal k) && sk_nodes_ok k &&
-  c03_ok (start_snap k) 0 (match sk_start_obs k with Some ob => so_reqs ob | None => [] end) true false (sk_trace k).
+  c03_ok (start_snap k) 0 (match sk_start_obs k with Some ob => so_reqs ob | None => [] end) true false (sk_trace k) &&
+  c03_ok_seen [] (start_snap k) false (sk_trace k).
 
 (** ---- C04: stream failures ---- *)
 (** [cur]: id of the live stream; [issued]: nonces issued on it; [live]: sender has a stream *)
